@@ -1,4 +1,5 @@
 import DmrVerif.Lemmas.E2EMain
+import DmrVerif.Lemmas.E2EParse
 import DmrVerif.Props.C07
 
 /-!
@@ -14,7 +15,8 @@ that exist for them:
   PDU codecs of C03 inside) satisfies that channel hypothesis for every payload object the library builds,
   every colour code and every announced burst type: `C01.data_roundtrip`;
   `generation_commutes` — the abstraction of the payload objects the generator builds is what C07's
-  generator model produces;
+  generator model produces; `abstraction_reads_info_bits` — on every parsed burst the abstraction hands the
+  tracker the de-interleaved information bits, as the real tracker reads them;
 * `crc_instance` — the concrete front ends of `Model/CrcFront.lean` (`CRC32.calculate`, byte order of the block
   attribute, `CRC9.calculate_from_parts` with the extracted masks) satisfy the range side conditions, never
   raise on the arguments that occur, and are the polynomial remainders of C05;
@@ -39,6 +41,20 @@ abstract burst C07's generator model hands to the receiver. -/
 theorem burst_channel (p : Dmr.Payload) (hp : Burst.Built crcsC p) (cc : Nat) (hcc : cc < 16) (bt : BurstType) :
     ∃ x, wire (p, cc) = .ok x ∧ x.length = 264 ∧ receive bt x = .ok ⟨payloadAbs p, some cc⟩ :=
   channel p hp cc hcc bt
+
+/-- **What the abstraction reads, for every burst the parser accepts.**  The burst model of C01 has no
+`info_bits_deinterleaved` / `full_bits` attributes (which the real tracker and the harness's `alpha` read); the
+abstraction `absOf` reads the parsed payload object.  For every 264-bit string parsed to a burst with a slot
+type that is the same: the colour code is the slot type's, the payload object is `extract_data` of the
+de-interleaved information bits, and for the rate ½ / ¾ / 1 data types the bits handed to the tracker are
+exactly the de-interleaved information bits of the burst. -/
+theorem abstraction_reads_info_bits (x : Bits) (bt : BurstType) (q : Dmr.Burst)
+    (hq : Burst.parse crcsC x bt = .ok q) (st : SlotType) (hst : q.slotType = some st) :
+    (absOf q).cc = some st.colourCode
+    ∧ ∃ deint, Burst.deinterleave (x.take 98 ++ x.drop 166) st.dataType = .ok deint
+        ∧ Burst.extractData crcsC st.dataType deint = .ok q.data
+        ∧ ∀ r, rateOfDt st.dataType = some r → (absOf q).payload = .rate r deint :=
+  absOf_reads_info_bits crcsC x bt q hq st hst
 
 /-- **The abstraction commutes with generation.**  The generator on the level of payload objects
 (`genPayloads`: `Fragment.generate` with `Csbk` / `DataHeader` / `RateData` records of C03 in place of their
